@@ -482,7 +482,7 @@ fn rule() -> impl Strategy<Value = RuleSpec> {
 
 fn case_strategy(tier: Tier, with_mt: bool) -> BoxedStrategy<Case> {
     let max_ev = tier.pick(25usize, 40usize);
-    let n_sched = if with_mt { tier.pick(4usize, 24usize) } else { 0 };
+    let n_sched = if with_mt { tier.pick(6usize, 24usize) } else { 0 };
     (
         1usize..=6,
         1usize..=6,
@@ -511,7 +511,7 @@ impl Part for SingleThread {
         "single-thread"
     }
     fn cases(&self, tier: Tier) -> u32 {
-        tier.pick(3000, 80_000)
+        tier.pick(12_000, 200_000)
     }
     fn strategy(&self, tier: Tier) -> BoxedStrategy<Case> {
         case_strategy(tier, false)
@@ -531,7 +531,7 @@ impl Part for MultiThread {
         "multi-thread"
     }
     fn cases(&self, tier: Tier) -> u32 {
-        tier.pick(250, 4000)
+        tier.pick(500, 6000)
     }
     fn strategy(&self, tier: Tier) -> BoxedStrategy<Case> {
         case_strategy(tier, true)
